@@ -464,6 +464,9 @@ def check_dispatch(ctx, prog, uv, usc):
         ctx.ok("c06.dispatch", "c06.ventilation|n_v", "n_v = [space.n_v, model.global_ventilation_rate()]", uv.loc(lnn))
     else:
         ctx.violation("c06.dispatch", "c06.ventilation|n_v", "ventilation rate precedence is %s, expected [space.n_v, model.global_ventilation_rate()]" % ch, uv.loc(lnn))
+    # the building-wide rate itself: 3.6 * l/s over the net volume of the habitable spaces inside the envelope (the same obligation C11 decides)
+    from .c11 import check_model_ventilation
+    check_model_ventilation(ctx, prog, "c06.ventilation")
     # q_ue = area * height_net * n_v
     qv = local_defs(usc, "q_ue")
     if qv:
